@@ -307,4 +307,5 @@ def write_with(doc, prefixes, sites, default=None):
     if bundles:
         sites.on("two-defaults")
     sites.on("default-ns")  # a global dialect: one site
+    sites.on("anon-ids-named")  # likewise
     sites.on("reverse-keys")
